@@ -98,7 +98,23 @@ def substitute(arguments, consumer_stage, declared):
     return ''.join(out), used
 
 
+def referenced_stdout_stream(indexes):
+    """Which archived stdout stream a file-less :output reference to a REPEATING producer denotes.
+
+    The statement says "the contents of the referenced file"; for a repeating producer the documentation of
+    ComponentSpecification.path_to_stdout defines that file: "Returns most recently generated file for
+    RepeatingEngines (... indexed stdout files under a `streams` folder ...)". Streams are numbered by repetition,
+    so the most recently generated one is the one with the numerically highest index."""
+    indexes = [int(i) for i in indexes]
+    if not indexes or any(i < 0 for i in indexes):
+        raise GreyZone('no archived stream: the statement does not say what a missing :output resolves to')
+    return max(indexes)
+
+
 def selftest():
+    assert referenced_stdout_stream([7, 8, 9, 10]) == 10 and referenced_stdout_stream([99, 100]) == 100
+    assert referenced_stdout_stream([3]) == 3 and referenced_stdout_stream([2, 10]) == 10
+
     d = [dict(stage=0, name='A', file=None, method='ref', value='/p/0/A'),
          dict(stage=1, name='A', file=None, method='ref', value='/p/1/A'),
          dict(stage=0, name='BA', file='f.txt', method='output', value='x A:ref y'),
